@@ -334,15 +334,20 @@ def run(tier):
         "announces all indices, notifier/cookie/comparator are forwarded unchanged, add announces nelems-1, delete moves the last "
         "element into the hole (H1); the timer queue uses exactly the position its notifier stored in the caller's record (H2) and "
         "stores/returns the caller's pointer, freeing only after reading (H3); parent/child index arithmetic is guarded and the sift "
-        "loops use the comparator with the documented sign (H4). Comparator totality is decided in C04. Not decided: that sifting "
+        "loops use the comparator with the documented sign (H4); the timer comparator is the lexicographic order on all nine orderings and "
+        "the queue releases only on its not-later edge (O6, shared with C04). Not decided: that sifting "
         "restores heap order for every history (an inductive invariant over the array).",
         trusted=["elasticarray wrappers (C12, C14)"])
-    prog = ir.Program([PH, TQ, "datastruct/elasticarray.c"], cdb.HOST)
+    prog = ir.Program([PH, TQ, "datastruct/elasticarray.c", "events/events_timer.c"], cdb.HOST)
     rep.add_stats(prog)
     h1(prog, rep)
     h4(prog, rep)
     h5(prog, rep)
     h2_h3(prog, rep)
+    # the timer queue's order is its comparator's: lexicographic on (sec, usec) for all nine orderings, release only on the
+    # not-later edge, keys stored before the heap is told (rules shared with C04)
+    from . import c04
+    c04.o6(prog, rep)
     # the heap's storage: a shrink that is silently skipped leaves deleted elements in the array (rule shared with C12)
     from . import c12
     c12.resize_contract(prog, rep)
@@ -350,4 +355,5 @@ def run(tier):
     rep.require_min("H1-forward", 8)
     rep.require_min("H2-handle", 4)
     rep.require_min("H4-index", 4)
+    rep.require_min("O6-compare", 2)
     return rep
